@@ -23,6 +23,16 @@ Theorem exact_name_designates_its_host :
 Proof. exact exact_name_designates. Qed.
 Print Assumptions exact_name_designates_its_host.
 
+(* with host settings that validation accepts, an alternative SNI is claimed by the one main host that lists it - no other
+   entry answers to it - and the lookup of alternative SNIs finds that host *)
+Theorem alternative_sni_designates_its_host :
+  forall c j h sni,
+    valid_hosts c = true -> nth_error (c_main c) j = Some h -> In sni (mh_alts h) ->
+    alt_lookup sni (c_main c) 0 = Some (N.of_nat j)
+    /\ (forall i e, nth_error (claims c) i = Some e -> In sni e -> i = j).
+Proof. exact alternative_sni_designates_proof. Qed.
+Print Assumptions alternative_sni_designates_its_host.
+
 Theorem unknown_sni_refused :
   forall c alpn sni, designated c sni = None -> select c alpn sni = None.
 Proof. exact unknown_sni_refused_proof. Qed.
@@ -83,10 +93,10 @@ Theorem reload_atomic :
   (forall cur c loadable,
       fst (dstep cur (DReload c loadable)) = (if valid_hosts c && loadable then c else cur))
   /\ (forall cur alpn sni, dstep cur (DSelect alpn sni) = (cur, Some (select cur alpn sni)))
-  /\ RELOAD_REPLACES_ONLY_ON_SUCCESS = true.
+  /\ RELOAD_REPLACES_ONLY_ON_SUCCESS = true /\ RELOAD_TASK_REPORTS_FAILURES = true.
 Proof.
   split; [intros cur c loadable; apply (reload_proof cur c loadable)|].
-  split; [intros cur alpn sni; apply (reload_proof cur cur true)|exact eq_refl].
+  split; [intros cur alpn sni; apply (reload_proof cur cur true)|split; exact eq_refl].
 Qed.
 Print Assumptions reload_atomic.
 
